@@ -497,7 +497,7 @@ func GetAttrTypeString(t int, nullable bool) string {
 		str = ""
 	}
 
-	if nullable {
+	if nullable && str != "" {
 		return "*" + str
 	}
 
